@@ -226,6 +226,22 @@ def run(tier: str) -> int:
                     r.hit({"node": "result", "kind": "result-columns-are-not-the-targets", "option": label},
                           f"with {label} the result has columns {sorted(set(res.columns) - set(T))[:5]} beyond the targets",
                           {"date": date, "targets": T})
+            # the documented forms of the target argument: a single name as a string, a list with repetitions
+            for label, targ, want in (("a single target given as a string", T[0], [T[0]]),
+                                      ("targets listed twice", T[:3] + T[:3], sorted(set(T[:3])))):
+                ok, res = r.attempt(f"simulate({label}) at {date}", popgen.simulate, df, date, targets=targ)
+                r.case({"date": date, "pop": k, "variant": label})
+                if not ok:
+                    continue
+                if sorted(res.columns) != sorted(want) or len(res) != len(df):
+                    r.hit({"node": "result", "kind": "result-columns-are-not-the-targets", "option": label},
+                          f"with {label} ({targ!r}) the result has columns {list(res.columns)[:6]} and {len(res)} rows for {len(df)} input rows",
+                          {"date": date, "targets": targ})
+                    continue
+                for t in want:
+                    if not np.array_equal(res[t].to_numpy(), base[t].to_numpy(), equal_nan=res[t].dtype.kind == "f"):
+                        r.hit({"node": t, "kind": "depends-on-option", "option": label},
+                              f"{t} at {date} changes with {label}", {"date": date, "targets": targ})
             r.sample({"date": date, "kinds": kinds, "target_sets": len(sets)}, limit=3)
     return r.finish()
 
